@@ -14,9 +14,11 @@ RULE = ('NeGra heuristic: random trees (to 30 tokens, shuffled child lists, '
         '(unknown preset, both sources, none); non-trivial = constituent with '
         '>= 2 children whose expected head is not the leftmost child; '
         'distinct = distinct (tree, marker, preset)')
-ASSUMPTIONS = ['the head-rule tables of trees/transformconst.py are read as '
-               'data: "listed" = occurs in any priority list of the parent '
-               'category',
+ASSUMPTIONS = ['"listed" = occurs in any priority list of the parent category '
+               'in the documented preset; the presets are pinned in '
+               'vt/headrules_ref.py (copy of trees/transformconst.py at the '
+               'pinned commit), so a slip in the table itself shows as a '
+               'wrong head',
                'only the case the property fixes is judged for rule-based '
                'marking (exactly one listed child); no priority semantics '
                'is assumed']
@@ -213,12 +215,12 @@ def run_negra(ctx, spec, rng, stale=False, twice=None):
 
 
 def tables(R):
-    out = {}
-    for name, tab in (('negra', R.transformconst.HEAD_RULES_NEGRA),
-                      ('ptb', R.transformconst.HEAD_RULES_PTB)):
-        out[name] = {p: set(w for (_, lst) in rules for w in lst.split())
-                     for p, rules in tab.items()}
-    return out
+    """What each preset lists per parent category: the pinned copy of the
+    documented tables (vt/headrules_ref.py), not the table the code under
+    test carries."""
+    from . import headrules_ref
+    return {'negra': {p: set(ws) for p, ws in headrules_ref.NEGRA.items()},
+            'ptb': {p: set(ws) for p, ws in headrules_ref.PTB.items()}}
 
 
 def decorate(rng, cat, allow_dash=True):
